@@ -75,7 +75,7 @@ PLANS.update({
         "floor": 20000,
     },
     "C14": {
-        "quick": [job("c14", args={"sessions": 400, "time": 40}), job("c14fault")],
+        "quick": [job("c14", args={"sessions": 1000, "time": 50}), job("c14fault")],
         "thorough": [job("c14", args={"sessions": 6000, "time": 480}, timeout=3600), job("c14fault")],
         "floor": 20000,
     },
